@@ -336,6 +336,7 @@ TypeOneDRule TasmanianSparseGrid::getRule() const{ return (base) ? base->getRule
 const char* TasmanianSparseGrid::getCustomRuleDescription() const{ return (isGlobal()) ? get<GridGlobal>()->getCustomRuleDescription() : ""; }
 
 void TasmanianSparseGrid::getLoadedPoints(double *x) const{
+    if (base->getNumLoaded() == 0) return; // a grid without outputs has points but none of them counts as loaded, x has no room for them
     base->getLoadedPoints(x);
     formTransformedPoints(base->getNumLoaded(), x);
 }
